@@ -392,4 +392,6 @@ def _cross(u, v):
 
 def _round_vertex(v):
     x, y = v
-    return (int(round(x)), int(round(y)))
+    # nearest pixel centre, ties up (same convention as utils._toindex), so that
+    # whole-pixel translations of a polygon translate the rounded polygon
+    return (int(np.floor(x + 0.5)), int(np.floor(y + 0.5)))
